@@ -119,7 +119,8 @@ def run(chk):
         idx = [i for i, a in enumerate(impl) if a.startswith("ok ")][: (120 if chk.thorough else 25)]
         for i in idx:
             src, ds = progs[i]
-            rc, out, err, qfile = c17.run_cli(exe, work, src, ["--emit-qasm"], draws=evallib.draws_arg(ds) if ds else None)
+            rc, out, err, qfile = c17.run_cli(exe, work, src, ["--emit-qasm"], draws=evallib.draws_arg(ds) if ds else None,
+                                              elsewhere=(file_checked % 2 == 1))
             want = evallib.split_result(impl[i]).get("qasm_text", "")
             file_checked += 1
             why = None
@@ -134,8 +135,9 @@ def run(chk):
             # multi-shot runs write the same file whether or not the text is also printed
             if file_checked <= (40 if chk.thorough else 8) and "main()" in src and "@shots" not in src:
                 dr = evallib.draws_arg(ds) if ds else None
-                rc1, _o1, e1, q1 = c17.run_cli(exe, work, src, ["--shots=3"], draws=dr)
-                rc2, o2, e2, q2 = c17.run_cli(exe, work, src, ["--shots=3", "--emit-qasm"], draws=dr)
+                away = file_checked % 2 == 0          # every other program: started from another directory
+                rc1, _o1, e1, q1 = c17.run_cli(exe, work, src, ["--shots=3"], draws=dr, elsewhere=away)
+                rc2, o2, e2, q2 = c17.run_cli(exe, work, src, ["--shots=3", "--emit-qasm"], draws=dr, elsewhere=away)
                 why = None
                 if rc1 != rc2:
                     why = "a 3-shot run exits with %d without --emit-qasm and %d with it" % (rc1, rc2)
@@ -143,6 +145,9 @@ def run(chk):
                     why = "a 3-shot run writes a different .qasm file with and without --emit-qasm (%d vs %d bytes)" % (len(q1), len(q2))
                 elif rc1 == 0 and judge_text(q1):
                     why = "the .qasm file of a 3-shot run: " + judge_text(q1)
+                elif rc1 == 0 and (not q2 or not o2.endswith(q2)):
+                    why = ("a 3-shot run%s: --emit-qasm prints something else than the .qasm file next to the source (%d bytes in the file)"
+                           % (" started from another directory" if away else "", len(q2)))
                 if why and bad is None:
                     bad = (src, ds, why, impl[i])
     finally:
